@@ -17,6 +17,7 @@ A *scenario* is a JSON-serialisable dict; ``run_scenario`` turns it into a Trace
 Nothing in here calls an RNG or reads the wall clock.
 """
 import errno
+import os as _real_os
 import hashlib
 import socket as _real_socket
 import ssl as _real_ssl
@@ -1376,6 +1377,11 @@ def run_scenario(scenario, on_event=None):
     def body():
         global CURRENT
         CURRENT = sim
+        # "process_env": variables of the REAL process environment for the duration of the run (what library code
+        # outside lomond - urllib's proxy helpers, say - gets to see), restored afterwards
+        penv = scenario.get("process_env") or {}
+        saved = {k: _real_os.environ.get(k) for k in penv}
+        _real_os.environ.update(penv)
         try:
             w = ws if ws is not None else make_ws(scenario)
             tr.ws = w
@@ -1384,6 +1390,11 @@ def run_scenario(scenario, on_event=None):
                    companion if (companion is not None and companion.mode == "interleaved") else None)
         finally:
             CURRENT = None
+            for k, v in saved.items():
+                if v is None:
+                    _real_os.environ.pop(k, None)
+                else:
+                    _real_os.environ[k] = v
     try:
         if companion is not None and companion.mode == "blocked_in_send":
             companion.run_inside_send(body)
